@@ -202,6 +202,20 @@ func (v *VerifSession) Stash() []int {
 	return keys
 }
 
+// StashTypes returns the MsgType of each kept message, in the order of Stash().
+func (v *VerifSession) StashTypes() []string {
+	r, ok := v.resend()
+	if !ok {
+		return nil
+	}
+	var out []string
+	for _, k := range v.Stash() {
+		t, _ := r.messageStash[k].Header.GetString(tagMsgType)
+		out = append(out, t)
+	}
+	return out
+}
+
 // ResendRange returns (currentResendRangeEnd, resendRangeEnd).
 func (v *VerifSession) ResendRange() (int, int) {
 	r, _ := v.resend()
